@@ -215,7 +215,7 @@ def run_session(s):
               "cfg": [c.get("backend", ""), c.get("dtype", ""), c.get("layout", "")]}
         if c.get("args") is None:
             ins = A.build_inputs(entry, c["dtype"], c.get("layout", "C"), c.get("backend", "numpy"), c.get("seed", 0),
-                                 finite=bool(c.get("finite")))
+                                 finite=bool(c.get("finite")), p=p)
             names = []
             for role, x, _m in ins:
                 nm = "%d_%s" % (k, role)
@@ -230,7 +230,7 @@ def run_session(s):
             ev["new"] = []
         ev["args"] = names
         fn = getattr(MODS[entry["mod"]], entry["attr"])
-        args, kwargs = entry["kw"](p, [store[n] for n in names])
+        args, kwargs = entry["kw"](A.public(p), [store[n] for n in names])
         res = None
         t0 = time.time()
         try:
